@@ -511,7 +511,7 @@ async fn main(plan: Plan) -> Outcome {
             policy: [Policy::Default, Policy::Downgrading, Policy::Fallthrough]
                 [tape::weighted("c06:policy", &[3, 3, 1])],
             consistency: CONSISTENCIES[tape::weighted("c06:cl", &[3, 2, 1, 1, 1, 1, 1, 1])],
-            kind: if plan.forgetful { [2u64, 3, 6][tape::choose("c06:kind_prepared", 3) as usize] } else { tape::choose("c06:kind", 7) },
+            kind: if plan.forgetful { [2u64, 3, 6][tape::choose("c06:kind_prepared", 3) as usize] } else { tape::choose("c06:kind", 8) },
         });
     }
     let mut handles = Vec::new();
@@ -549,6 +549,19 @@ async fn main(plan: Plan) -> Outcome {
                     p.set_retry_policy(Some(rec));
                     session
                         .execute_unpaged(&p, (m as i64 % 7, m as i64))
+                        .await
+                        .map(|_| ())
+                        .map_err(|e| client::short_err(&e))
+                }
+                7 => {
+                    // An unprepared statement WITH values: every attempt prepares it on its
+                    // connection and executes it.
+                    let mut st = Statement::new(client::Q_PREPARED_INSERT);
+                    st.set_is_idempotent(s.idempotent);
+                    st.set_consistency(s.consistency);
+                    st.set_retry_policy(Some(rec));
+                    session
+                        .query_unpaged(st, (m as i64 % 7, m as i64))
                         .await
                         .map(|_| ())
                         .map_err(|e| client::short_err(&e))
